@@ -22,8 +22,10 @@ RECURSIVE AscSeq(_)
 AscSeq(S) == IF S = {} THEN <<>> ELSE LET m == CHOOSE x \in S : \A y \in S : x <= y IN <<m>> \o AscSeq(S \ {m})
 SceneSeq == AscSeq(Scenes)
 
+(* a batch cannot express a scene without detections; the empty batch is allowed *)
+DLne == DL \ {<<>>}
 BatchOps == {[op |-> "batch", b |-> [i \in 1..Len(AscSeq(S)) |-> [scene |-> AscSeq(S)[i], dets |-> f[AscSeq(S)[i]]]]] :
-               S \in (SUBSET Scenes) \ {{}}, f \in [Scenes -> DL]}
+               S \in SUBSET Scenes, f \in [Scenes -> DLne]}
 Ops == (IF Kind = "simple" THEN {[op |-> "predict", scene |-> s, dets |-> d] : s \in Scenes, d \in DL}
                            ELSE {o \in BatchOps : TRUE})
        \cup {[op |-> "skip", scene |-> s, n |-> n] : s \in Scenes, n \in 1..2}
